@@ -1,7 +1,7 @@
 /-
 Helper lemmas about the coupling model (proof files may import single Mathlib modules).
 -/
-import YadismModel.Model.Combiner
+import YadismModel.Model.Operator
 import Mathlib.Tactic.Ring
 import Mathlib.Tactic.FieldSimp
 import Mathlib.Tactic.Linarith
@@ -58,5 +58,20 @@ theorem listSum_map_zero {α} (l : List α) : listSum (l.map fun _ => (0 : Rat))
   induction l with
   | nil => simp
   | cons x xs ih => rw [List.map_cons, listSum_cons, ih]; ring
+
+end Yadism
+
+namespace Yadism
+
+theorem opEntry_append (a b : List Kernel) (conv : ChanId → Rat) (p : Int) :
+    opEntry (a ++ b) conv p = opEntry a conv p + opEntry b conv p := by
+  simp [opEntry, listSum_append]
+
+@[simp] theorem opEntry_nil (conv : ChanId → Rat) (p : Int) : opEntry [] conv p = 0 := by
+  simp [opEntry]
+
+@[simp] theorem opEntry_cons (k : Kernel) (ks : List Kernel) (conv : ChanId → Rat) (p : Int) :
+    opEntry (k :: ks) conv p = k.partons p * conv k.chan + opEntry ks conv p := by
+  simp [opEntry]
 
 end Yadism
